@@ -268,6 +268,7 @@ func (s *scriptServer) serve(nc net.Conn) {
 
 		out := [][]byte{}
 		skip, closeAfter, closeBefore := false, false, false
+		stallMs := 0
 		var pre, post [][]byte
 		for _, m := range s.mutsFor(string(req.Method)) {
 			switch m.Kind {
@@ -293,6 +294,8 @@ func (s *scriptServer) serve(nc net.Conn) {
 				closeBefore = true
 			case "close-after":
 				closeAfter = true
+			case "stall-after":
+				stallMs, _ = strconv.Atoi(m.Arg)
 			case "delay":
 				n, _ := strconv.Atoi(m.Arg)
 				time.Sleep(time.Duration(n) * time.Millisecond)
@@ -385,6 +388,20 @@ func (s *scriptServer) serve(nc net.Conn) {
 		}
 		if closeAfter {
 			return
+		}
+		if stallMs > 0 {
+			// keep the connection open but stop reading for a while (small receive buffer, so that
+			// the client's writer blocks after some kilobytes)
+			var raw net.Conn = nc
+			if tc, ok := nc.(*tls.Conn); ok {
+				raw = tc.NetConn()
+			}
+			if tc, ok := raw.(*net.TCPConn); ok {
+				_ = tc.SetReadBuffer(2048)
+			}
+			for k := 0; k < stallMs/10 && !s.closed.Load(); k++ {
+				time.Sleep(10 * time.Millisecond)
+			}
 		}
 		// while playing over an interleaved connection, send a little media after each request
 		if playing && req.Method == base.Play {
